@@ -4,10 +4,11 @@ import OFCore.Heap
 ```
 heap run <sys> <spec> <pre> <td> <events>
     -> <alias graph>;<obs of every simulation>|<step>|<step>|…        or ERR (the model could not build / clone)
-sys   = <var>;<var>;…          var  = <entity>:<unit>[~<type>][!]:<default>:<formula>
-                               (~type: value type of the real variable, ignored by the model; ! = in cache_blacklist)
+sys   = <var>;<var>;…          var  = <entity>:<unit>[~<type>][^][!]:<default>:<formula>      (^ = set_input_dispatch_by_period)
+                               (~type: value type of the real variable — the model only keeps whether it is an Enum; ! = in cache_blacklist)
                                formula = - | <const>{+<coef>*<dep>.<via>.<pt>}   pt = s|l
-                               via = s | m | p | mr<role> | nb<role> | hr<g>_<role> | pa | nt<k>      role = <flat>{_<flat>}
+                               via = s | m | p | mr<role> | nb<role> | hr<g>_<role> | pa | nt<k> | eq<k>     role = <flat>{_<flat>}
+                               (eq<k>: population(dep, p) == <member k of the enumeration>, dep an Enum variable of the same entity)
                                (role-filtered sum of the members, nb_persons(role), has_role(role of entity g), the
                                 parameter p0; a role is the set of flattened roles satisfying it: 0_1 | 0 | 1 | 2 | 3)
 spec  = <persons>/<groups>/<mem>/<cfg>
@@ -22,6 +23,7 @@ op    = s:<v>:<period>:<x,x,…> | d:<v>:<period|*> | k:<v>:<period> | a:<v>:<pe
       | q:<route>:<ent>:<v>:<period>          <route>(v, period): a calculation through the population a route returns
       | u:<route>:<ent>:<v>:<period>          <route>.get_holder(v).get_array(period)
                                               route = g (get_population(plural)) | d (populations[key]) | a (simulation.<key>) | p (simulation.persons)
+      | i:<v>:<period>                        simulation.invalidate_cache_entry(v, period)
       | r:<v>:<period>:<side>:<w>:<q>         set_input with the array object <side> holds for (w, q); `none` if it holds none
       | n:<t><d>                              clone this simulation (the answer is the alias graph of parent `o.` and child `c.`)
 period = eternity | <unit>/<y>,<m>,<d>/<size>
@@ -75,6 +77,7 @@ def parseVia? (via : String) : Option Via :=
     | [] => none
   else if via = "pa" then some Via.param
   else if via.startsWith "nt" then ((via.drop 2).toString.toNat?).map Via.nth
+  else if via.startsWith "eq" then ((via.drop 2).toString.toNat?).map Via.enumIs
   else none
 
 def parseTerm? (s : String) : Option Term :=
@@ -102,12 +105,14 @@ def parseVar? (s : String) : Option VarDecl :=
   | [e, u, d, f] => do
     let bl := u.endsWith "!"
     let u := if bl then (u.dropEnd 1).toString else u
-    let u ← (match u.splitOn "~" with
-      | [u] => some u
-      | [u, t] => if ["f", "i", "b", "e", "s", "d"].contains t then some u else none
+    let disp := u.endsWith "^"
+    let u := if disp then (u.dropEnd 1).toString else u
+    let (u, t) ← (match u.splitOn "~" with
+      | [u] => some (u, "f")
+      | [u, t] => if ["f", "i", "b", "e", "s", "d"].contains t then some (u, t) else none
       | _ => none)
     pure { entity := ← e.toNat?, defPeriod := ← DUnit.ofName u, dflt := ← d.toInt?, formula := ← parseFormula? f,
-           blacklisted := bl }
+           blacklisted := bl, isEnum := t = "e", dispatch := disp }
   | _ => none
 
 def parseSys? (s : String) : Option Sys := hAllSome ((splitList s ";").map parseVar?)
@@ -174,6 +179,7 @@ def parseOp? (s : String) : Option Op :=
   | ["a", v, p] => do pure (.calculateAdd (← v.toNat?) (← hParsePeriod? p))
   | ["t", b] => if b = "1" then some (.setTrace true) else if b = "0" then some (.setTrace false) else none
   | ["h", v] => do pure (.touch (← v.toNat?))
+  | ["i", v, p] => do pure (.invalidate (← v.toNat?) (← hParsePeriod? p))
   | _ => none
 
 def parseEvent? (s : String) : Option (Nat × Event) := do
@@ -348,6 +354,7 @@ def wellFormed (sys : Sys) (spec : SimSpec) : Bool :=
           | .membersRole _ => d.entity ≠ 0
           | .nbPersons _ => d.entity ≠ 0
           | .nth _ => d.entity ≠ 0
+          | .enumIs k => k < 10 && (match sys[t.dep]? with | some dd => dd.isEnum | none => false)
           | .same => true | .members => true | .project => true | .param => true)))
 
 def handleHeap (args : List String) : String :=
